@@ -16,17 +16,15 @@ open VaxisModel.Lemmas.ParserAbs
 
 /-! ## The table -/
 
-/-- The hand-written transition table of the model equals the table regenerated from
-    ansi/parser.go on this run. -/
-theorem hand_table_eq_gen :
-    handTable.anywhere = genTable.anywhere ∧ ∀ s, handTable.fn s = genTable.fn s := by
-  refine ⟨by decide, fun s => ?_⟩
-  cases s <;> decide
+/-- The hand-written transition table of the model has the same rows as the table regenerated from
+    ansi/parser.go on this run: for every state function (and `anywhere`) and every input, the same
+    statements in the same order and the same returned state.  (Row-wise, so that reordering disjoint
+    `case` arms or splitting a guard is not a difference.) -/
+theorem hand_table_eq_gen : sameRows handTable genTable = true := by decide +kernel
 
 /-- The hand model and the interpreter of the regenerated table are the same function. -/
-theorem pstep_eq_pstepGen (s : PState) (i : Inp) : pstep s i = pstepGen s i := by
-  have h := hand_table_eq_gen
-  simp only [pstep, pstepGen, step, h.1, h.2]
+theorem pstep_eq_pstepGen (s : PState) (i : Inp) : pstep s i = pstepGen s i :=
+  step_congr handTable genTable (by decide +kernel) (by decide +kernel) hand_table_eq_gen s i
 
 /-- **Table conformance.** For every state function of ansi/parser.go and every rune (and for the
     end of input), the statements of the arm that `anywhere` + the state function execute — read as
